@@ -22,7 +22,9 @@ use crate::model::*;
 use crate::refimpl::v3::json_str;
 use crate::refimpl::vlq as rv;
 
-pub const CORPUS_DIR: &str = "/verif/corpus/c05";
+pub fn corpus_dir() -> std::path::PathBuf {
+    crate::engine::verif_root().join("corpus/c05")
+}
 
 // ---------------------------------------------------------------------------------------
 // the battery
@@ -504,7 +506,7 @@ pub struct Case {
 }
 
 pub fn corpus_files() -> Vec<(String, Vec<u8>)> {
-    let mut v: Vec<(String, Vec<u8>)> = std::fs::read_dir(CORPUS_DIR)
+    let mut v: Vec<(String, Vec<u8>)> = std::fs::read_dir(corpus_dir())
         .map(|rd| {
             rd.filter_map(|e| e.ok())
                 .filter(|e| e.path().is_file())
